@@ -48,6 +48,7 @@ func main() {
 	out := flag.String("out", "", "output JSON")
 	seed := flag.Uint64("seed", 1, "seed")
 	tier := flag.String("tier", "quick", "quick|thorough")
+	naiveOnly := flag.Bool("naiveonly", false, "build only NaiveForm modes (used after a crash in a lifted mode: the lifter is not run, so a wrong dominator tree is observed instead of crashing lift)")
 	flag.Parse()
 	rnd := hx.NewRand(*seed)
 	thorough := *tier == "thorough"
@@ -59,6 +60,15 @@ func main() {
 		npk, nf, maxBlocks, ntd = 40, 60, 700, 0
 		repoPats = []string{"./..."}
 		modes = hx.AllModes()
+	}
+	if *naiveOnly {
+		var nm []ir.BuilderMode
+		for _, m := range modes {
+			if m&ir.NaiveForm != 0 {
+				nm = append(nm, m)
+			}
+		}
+		modes = nm
 	}
 	res := &Out{ByCorpus: map[string]int{}, Sources: map[string]map[string]string{}, MaxBlocks: maxBlocks}
 	for _, m := range modes {
@@ -100,7 +110,7 @@ func main() {
 		ms := modes
 		if it.Kind != "gen" && !thorough {
 			// the CFG does not depend on NaiveForm/GlobalDebug; two modes suffice outside the generated corpus
-			ms = []ir.BuilderMode{modes[0], modes[3]}
+			ms = []ir.BuilderMode{modes[0], modes[len(modes)-1]}
 		}
 		for _, m := range ms {
 			tb := time.Now()
